@@ -1,10 +1,36 @@
-(* C04 — every request is answered with its own reply, in issue order.  Statements only. *)
-From MPD Require Import Bytes Tables LoopModel LoopProofs.
+(* C04 — subsystem-change notifications are delivered exactly once and in order.  Statements only. *)
+From MPD Require Import Bytes Tables BuilderModel LoopModel LoopProofs LoopSpec LoopSpecProofs.
 Open Scope N_scope.
 
-Theorem c04_placeholder : forall wf p i p' outs bs,
-  cstep wf p i = (p', outs) -> In (OWrite bs) outs ->
-  bs = idle_line \/ bs = noidle_line \/
-  (exists q, (p = PCancel q \/ i = InCmd (Some q)) /\ bs = q_bytes q).
-Proof. exact cstep_writes. Qed.
-Print Assumptions c04_placeholder.
+(* for EVERY schedule: the names delivered as events, followed by the names in replies still on
+   their way to the client, are exactly the names the server has written in changed: lines *)
+Theorem c04_exactly_once : forall reply_fn sch,
+  Forall wf_label sch ->
+  a_delivered (arun reply_fn sch) ++ flat_map names_of (a_s2c (arun reply_fn sch)) = a_reported (arun reply_fn sch).
+Proof. exact exactly_once. Qed.
+
+Theorem c04_quiescent : forall reply_fn sch,
+  Forall wf_label sch -> a_s2c (arun reply_fn sch) = [] ->
+  a_delivered (arun reply_fn sch) = a_reported (arun reply_fn sch).
+Proof. exact quiescent_all_delivered. Qed.
+
+(* one event per changed field, in order, carrying the name verbatim (Subsystem::from_frame) *)
+Theorem c04_every_changed_field : forall ns, changed_of (idle_frame ns) = ns.
+Proof. exact changed_idle_frame. Qed.
+
+(* events come only from the changed fields of the reply being handled: none is invented *)
+Theorem c04_no_invention : forall wf p i p' outs n,
+  cstep wf p i = (p', outs) -> In (OEvent n) outs ->
+  exists r f, i = InRecv (RResp r) /\ single_frame r = Some (inl f) /\ In n (changed_of f).
+Proof. exact events_come_from_reply. Qed.
+
+Example c04_two_in_one_reply :
+  let rf := fun bs => mkResp [mkFrame [] None] None in
+  let s := arun rf [LNotify (b "player"); LNotify (b "mixer"); LServe; LRecv] in
+  a_delivered s = [b "player"; b "mixer"] /\ a_reported s = [b "player"; b "mixer"].
+Proof. vm_compute. auto. Qed.
+
+Print Assumptions c04_exactly_once.
+Print Assumptions c04_quiescent.
+Print Assumptions c04_every_changed_field.
+Print Assumptions c04_no_invention.
